@@ -107,6 +107,12 @@ def mutants(block, rng, bytes_of):
         p = l.split(" ")
         r = re.search(r"RegisterOperand\((\d+)\)", l).group(1)
         res.append(("dropped-get-iterator", p[1], rep(k, "ins %s %s %d ValueNotNullOrUndefined { src: RegisterOperand(%s) }" % (p[1], p[2], bytes_of["ValueNotNullOrUndefined"], r))))
+    # 13 scope counter not restored by the scope analyzer: every locator of the deepest scope(s) one too high
+    stacks = [int(x) for l in block if l.startswith("binding ") for x in re.findall(r" Stack\((\d+)\) ", l)]
+    if stacks:
+        top = max(stacks)
+        b2 = [re.sub(r" Stack\(%d\) " % top, " Stack(%d) " % (top + 1), l) if l.startswith("binding ") else l for l in block]
+        res.append(("locator-scope-index+1", "Stack(%d)" % top, b2))
     # 10 opcode byte that is not the one the decoder printed
     if ins:
         k, l = rng.choice(ins)
